@@ -407,9 +407,9 @@ func corpus() []kase {
 			mk(full, mount, nil, "POST", str("create"), "/coll", nil),
 			mk(full, mount, nil, "PUT", nil, "/coll/1", nil),
 			mk(full, mount, nil, "DELETE", nil, "/coll", nil, [2]string{"ids", "List(1)"}),
-			mk(full, mount, nil, "GET", nil, "/coll/)", nil),                        // F20
-			mk(full, mount, nil, "GET", nil, "/coll/1", nil, [2]string{"foo", ")"}), // F7
-			mk(full, mount, nil, "GET", nil, "/coll/100%25", nil),                   // F5
+			mk(full, mount, nil, "GET", nil, "/coll/)", nil),                        // was F20
+			mk(full, mount, nil, "GET", nil, "/coll/1", nil, [2]string{"foo", ")"}), // was F7
+			mk(full, mount, nil, "GET", nil, "/coll/100%25", nil),                   // was F5
 			mk(full, mount, nil, "POST", str("action"), "/coll", nil, [2]string{"action", "entAct"}),
 			mk(full, mount, nil, "POST", str("action"), "/coll/1", nil, [2]string{"action", "resAct"}),
 			mk(simp, mount, nil, "POST", nil, "/simp", nil, [2]string{"action", "doIt"}),
@@ -423,8 +423,8 @@ func corpus() []kase {
 	empty := ""
 	cl := "/coll/1"
 	out = append(out,
-		mk(full, "bare", &api, "GET", nil, "/api/coll/1", &cl), // F6
-		mk(full, "bare", &api, "GET", nil, "/coll/1", &empty),  // F6, the other way round
+		mk(full, "bare", &api, "GET", nil, "/api/coll/1", &cl), // was F6
+		mk(full, "bare", &api, "GET", nil, "/coll/1", &empty),  // was F6, the other way round
 	)
 	return out
 }
